@@ -22,6 +22,7 @@ type SideOpts struct {
 	SrvUnary   int  `json:"srv_unary"`  // number of server unary interceptors (0 none)
 	SrvStream  int  `json:"srv_stream"` // number of server stream interceptors
 	SrvChain   bool `json:"srv_chain"`  // use Chain*Interceptor even for length 1
+	SrvSplit   int  `json:"srv_split,omitempty"` // >0 and at least two interceptors: 1 the first through UnaryInterceptor/StreamInterceptor and the rest through one Chain option; k>1 two Chain options, split after (k-1) mod (n-1) + 1
 	CliUnary   int  `json:"cli_unary"`  // 0..3 (1 through goat's option, 2..3 composed by the harness)
 	CliStream  int  `json:"cli_stream"`
 	SrvStats   int  `json:"srv_stats"`
@@ -35,6 +36,9 @@ func drawSideOpts(g *rand.Rand) SideOpts {
 		o.SrvUnary = g.IntN(7)
 		o.SrvStream = g.IntN(7)
 		o.SrvChain = g.IntN(2) == 0
+		if g.IntN(3) == 0 {
+			o.SrvSplit = 1 + g.IntN(6)
+		}
 	}
 	o.CliUnary = g.IntN(4)
 	o.CliStream = g.IntN(4)
@@ -57,6 +61,7 @@ type statEv struct {
 	Kind string // Begin, End, InHeader, ...
 	Err  error
 	Tag  int
+	Client bool // what the event's IsClient() says
 }
 
 type statTag struct {
@@ -254,6 +259,11 @@ func (s *SideObs) serverOpts() []goat.ServerOption {
 		}
 		if o.SrvUnary == 1 && !o.SrvChain {
 			out = append(out, goat.UnaryInterceptor(ics[0]))
+		} else if o.SrvSplit == 1 && len(ics) > 1 {
+			out = append(out, goat.UnaryInterceptor(ics[0]), goat.ChainUnaryInterceptor(ics[1:]...))
+		} else if o.SrvSplit > 1 && len(ics) > 1 {
+			k := (o.SrvSplit-1)%(len(ics)-1) + 1
+			out = append(out, goat.ChainUnaryInterceptor(ics[:k]...), goat.ChainUnaryInterceptor(ics[k:]...))
 		} else {
 			out = append(out, goat.ChainUnaryInterceptor(ics...))
 		}
@@ -265,6 +275,11 @@ func (s *SideObs) serverOpts() []goat.ServerOption {
 		}
 		if o.SrvStream == 1 && !o.SrvChain {
 			out = append(out, goat.StreamInterceptor(ics[0]))
+		} else if o.SrvSplit == 1 && len(ics) > 1 {
+			out = append(out, goat.StreamInterceptor(ics[0]), goat.ChainStreamInterceptor(ics[1:]...))
+		} else if o.SrvSplit > 1 && len(ics) > 1 {
+			k := (o.SrvSplit-1)%(len(ics)-1) + 1
+			out = append(out, goat.ChainStreamInterceptor(ics[:k]...), goat.ChainStreamInterceptor(ics[k:]...))
 		} else {
 			out = append(out, goat.ChainStreamInterceptor(ics...))
 		}
@@ -367,7 +382,7 @@ func (h *statsObs) HandleRPC(ctx context.Context, s stats.RPCStats) {
 		}
 		t = h.tags[0]
 	}
-	t.Events = append(t.Events, statEv{N: n, Kind: name, Err: err, Tag: t.Tag})
+	t.Events = append(t.Events, statEv{N: n, Kind: name, Err: err, Tag: t.Tag, Client: s.IsClient()})
 	histMu.Unlock()
 }
 
@@ -533,11 +548,12 @@ func checkSide(run *MixRun) {
 			}
 			site := side + "." + kind
 			if len(tags) == 0 {
-				// zero events are acceptable only for an RPC rejected before it began
+				// (a stream whose open fails is an RPC too: its interceptors run, and a
+				// unary call in the same situation reports Begin and End)
 				if h.side == 'c' && c.Kind != KUnary && r.NewStreamErr != nil {
-					continue
+					site += ".failed-open"
 				}
-				e.Violate(prop, "stats-missing", site, "call %d: %s stats handler %d saw no events", id, side, h.idx)
+				e.Violate(prop, "stats-missing", site, "call %d: %s stats handler %d saw no events (NewStream error: %v)", id, side, h.idx, r.NewStreamErr)
 				continue
 			}
 			if len(tags) > 1 {
@@ -545,6 +561,12 @@ func checkSide(run *MixRun) {
 			}
 			evs := tags[0].Events
 			nb, ne := 0, 0
+			for _, ev := range evs {
+				if ev.Client != (h.side == 'c') {
+					e.Violate(prop, "stats-wrong-side", site+"."+ev.Kind, "call %d: %s stats handler %d: its %s event says IsClient()=%v", id, side, h.idx, ev.Kind, ev.Client)
+					break
+				}
+			}
 			for _, ev := range evs {
 				if ev.Kind == "Begin" {
 					nb++
